@@ -166,6 +166,8 @@ def run(ctx):
     check_reader(ctx, prog, other_val)
     check_swap(ctx, prog)
     check_string_writers(ctx, prog)
+    check_read_n(ctx, prog)
+    check_file_read(ctx, prog)
     return __doc__.split('\n\n', 1)[1]
 
 
@@ -919,3 +921,105 @@ def affine(e, var_id):
             return None
         return (a[0] + b[0], a[1] + b[1]) if e['op'] == '+' else (a[0] - b[0], a[1] - b[1])
     return None
+
+
+def check_read_n(ctx, prog):
+    """C16.readn: StreamBufferReader::read(n) - the only way to read a byte array or string back from a buffer - returns exactly
+    the next n bytes and advances by n; only a negative n means "everything left".  Interpreted (scansim) on a 5-byte buffer
+    from position 1 for n = -1, 0, 1, 2, 4: a zero-length field must consume nothing (the values after it are read from the
+    right place)."""
+    import scansim
+    fs = [g for g in prog.fn('asl::StreamBufferReader::read', '(int)') if g.get('body')]
+    if not fs:
+        raise AnalysisBroken('anchor StreamBufferReader::read(int) not found')
+    f = fs[0]
+    ctx.analysed(f)
+    role = 'StreamBufferReader::read(n):n bytes returned, position advanced by n'
+    data = [10, 20, 30, 40, 50]
+    bad = und = None
+    for n in (-1, 0, 1, 2, 4):
+        bufs = {'BUF': list(data)}
+        mems = {'_ptr': ('P', 'BUF', 1), '_end': ('P', 'BUF', 5)}
+        r = scansim.Run(prog, f, bufs, int_params={f['params'][0]['id']: n}, mems=mems, methods={'*': 'interp'}, objects=True)
+        ctx.evaluations += 1
+        try:
+            got = r.run()
+        except scansim.OOB as o:
+            bad = 'read(%d) accesses memory outside the buffer: %s' % (n, o)
+            break
+        except (scansim.Unsupported, TypeError, KeyError) as u:
+            und = str(u)
+            break
+        want = data[1:] if n < 0 else data[1:1 + n]
+        out = bufs.get(got[1]) if isinstance(got, tuple) and len(got) == 3 and got[0] == 'P' else None
+        pos = mems.get('_ptr')
+        if out is None or not isinstance(pos, tuple):
+            und = 'result of read(%d) is not a modelled array' % n
+            break
+        if [x & 255 if isinstance(x, int) else x for x in out] != want or pos != ('P', 'BUF', 1 + len(want)):
+            bad = 'read(%d) on a buffer with 4 bytes left returns %d byte(s) and advances by %s, expected %d and %d: %s' % (
+                n, len(out), pos[2] - 1, len(want), len(want), 'a zero-length array or string field swallows the rest of the buffer and every later value is read from the wrong place' if n == 0 else 'the field is not read back as written')
+            break
+    if und:
+        ctx.undecided('C16.readn', f['pq'], role, fwhere(f), 'outside the interpreted fragment: %s' % und)
+    else:
+        ctx.check(bad is None, 'C16.readn', f['pq'], role, fwhere(f), 'interpreted for n = -1, 0, 1, 2, 4', bad or '')
+
+
+def check_file_read(ctx, prog):
+    """C16.fileread: File::read(p, n) - the primitive under every File >> value - stores the next n bytes of the file whatever
+    their values are and returns how many it stored (0 at end of file).  Interpreted (scansim) with stdio replaced by a model
+    file holding ff 00 7f 80 1a 0a: byte-wise reads, one read of everything, a read across the end, a read at the end."""
+    import scansim
+    fs = [g for g in prog.fn('asl::File::read', '(void *,int)') if g.get('body')]
+    if not fs:
+        raise AnalysisBroken('anchor File::read(void*, int) not found')
+    f = fs[0]
+    ctx.analysed(f)
+    role = 'File::read(p, n):next n bytes stored whatever their values'
+    content = [0xff, 0x00, 0x7f, 0x80, 0x1a, 0x0a]
+    bad = und = None
+    for plan in ([1, 1, 1, 1, 1, 1, 1], [6, 1], [4, 4], [2, 2, 2]):
+        pos = [0]
+
+        def fread(run, e, args):
+            dst, size, cnt = args[0], args[1], args[2]
+            if not (isinstance(dst, tuple) and dst[0] == 'P' and isinstance(size, int) and isinstance(cnt, int)) or size < 1:
+                raise scansim.Unsupported('fread arguments')
+            k = max(0, min(size * cnt, len(content) - pos[0])) // size * size
+            for j in range(k):
+                run.store(('P', dst[1], dst[2] + j), content[pos[0] + j] - 256 if content[pos[0] + j] > 127 else content[pos[0] + j], e.get('l'))
+            pos[0] += k
+            return k // size
+
+        def getc(run, e, args):
+            if pos[0] >= len(content):
+                return -1
+            pos[0] += 1
+            return content[pos[0] - 1]
+        for n in plan:
+            before = pos[0]
+            bufs = {'OUT': [0x55] * 8}
+            r = scansim.Run(prog, f, bufs, ptr_params={f['params'][0]['id']: ('P', 'OUT', 0)}, int_params={f['params'][1]['id']: n}, mems={'_file': ('P', 'FILE', 0)},
+                            externs={'fread': fread, 'getc': getc, 'fgetc': getc, 'getc_unlocked': getc}, methods={'*': 'interp'})
+            ctx.evaluations += 1
+            try:
+                got = r.run()
+            except scansim.OOB as o:
+                bad = 'read(p, %d) at offset %d writes outside the destination: %s' % (n, before, o)
+                break
+            except (scansim.Unsupported, TypeError, KeyError) as u:
+                und = str(u)
+                break
+            want = content[before:before + n]
+            stored = [x & 255 for x in bufs['OUT'][:len(want)]]
+            if got != len(want) or stored != want or pos[0] != before + len(want) or any(x != 0x55 for x in bufs['OUT'][len(want):]):
+                bad = 'read(p, %d) at offset %d of a file holding %s returns %s and stores %s (file position %d), expected %d and %s: a byte of that value is not read back' % (
+                    n, before, ' '.join('%02x' % x for x in content), got, ' '.join('%02x' % x for x in stored) or 'nothing', pos[0], len(want), ' '.join('%02x' % x for x in want) or 'nothing')
+                break
+        if bad or und:
+            break
+    if und:
+        ctx.undecided('C16.fileread', f['pq'], role, fwhere(f), 'outside the interpreted fragment: %s' % und)
+    else:
+        ctx.check(bad is None, 'C16.fileread', f['pq'], role, fwhere(f), 'interpreted against a model file for byte-wise, whole and over-long reads', bad or '')
